@@ -138,11 +138,18 @@ def run_case(case):
             oev.append([sorted(atom(v) for v in ev.removed), sorted(atom(v) for v in ev.added)])
 
         owner.observe(observer, "s:items")
+        legacy = []
+
+        def legacy_items(event):         # the pre-6.0 channel: TraitSetObject.notifier -> TraitSetEvent on `s_items`
+            legacy.append([sorted(atom(v) for v in event.removed), sorted(atom(v) for v in event.added)])
+
+        owner.on_trait_change(legacy_items, "s_items")
     hist = []
     for op in case["ops"]:
         del events[:]
         if oev is not None:
             del oev[:]
+            del legacy[:]
         k = op[0]
         out, ret, cv = "Ok", None, None
         try:
@@ -192,6 +199,8 @@ def run_case(case):
                 raise ValueError(k)
         except Exception as e:  # noqa
             out = dlib.exn_name(e, EXN)
+        if oev is not None and legacy != oev:
+            oev.append([[-2], [-2]])     # the legacy items event must carry the same deltas as the observer event
         hist.append({"out": out, "after": contents(ts), "events": [list(e) for e in events],
                      "ret": ret, "cv": cv, "oev": None if oev is None else [list(e) for e in oev]})
     return hist
